@@ -84,7 +84,7 @@ Definition identity_first (G : list krot) : bool :=
 
 Definition sc_ok (sc : sector_cert) : bool :=
   let G := subject_ops (sc_name sc) (sc_laue sc) in
-  identity_first G && kunit G
+  identity_first G && kunit G && kclosed G && kinv_closed G
   && tree_ok G (sc_N sc) [] (sc_tree sc)
   && all2b (fun r c => gordan_ok (sc_N sc) r c) (tl G) (sc_gordan sc).
 
